@@ -1042,7 +1042,7 @@ def _check_line(ctx, f, geo, p1, p2, npts, arg1, arg2, nvdim, label, inst):
         d2 = sum((Fr(float(pts[i, k])) - e1[k]) ** 2 for k in range(nd))
         dist = math.sqrt(float(d2))
         ctx.check()
-        if abs(r[i] - dist) > 16 * math.sqrt(nd) * max(C.ulp(m) for m in Mk) + 8 * C.ulp(dist):
+        if C.gt(abs(r[i] - dist), 16 * math.sqrt(nd) * max(C.ulp(m) for m in Mk) + 8 * C.ulp(dist)):
             ctx.fail("Field.line/r-is-not-distance-from-p1", f"point {i}: r={r[i]!r}, |p-p1|={dist!r}", instance=inst)
             return
     ctx.check()
